@@ -84,7 +84,7 @@ def _ones(k, m=1):
 
 
 def _rand(seed=None):
-    if seed is None or isinstance(seed, int):
+    if seed is None or isinstance(seed, (int, np.integer)):
         return np.random.default_rng(seed)
     else:
         return seed
